@@ -15,6 +15,7 @@ import CBV.Lemmas.C11Chain
 import CBV.Lemmas.C11Geom
 import CBV.Lemmas.C11Loft
 import CBV.Lemmas.C11Distinct
+import CBV.Lemmas.C11Oval
 import Mathlib.Analysis.Real.Sqrt
 import Mathlib.Tactic.NormNum
 import Mathlib.Tactic.Ring
@@ -749,6 +750,111 @@ theorem T_C11_RH_is_validator (H : Hex Rat) (h : H.RH) : rightHanded (H.toList.m
       V3.dot, V3.cross_x, V3.cross_y, V3.cross_z, V3.sub_x, V3.sub_y, V3.sub_z] <;>
     simp only [P3.triple, P3.dot, P3.cross, P3.sub] at j0 j1 j2 j3 j4 j5 j6 j7 <;>
     assumption
+
+/-! ## Part H — WrappedDisk, Oval and Grid in the generic point model -/
+
+section PartH
+open P3
+variable {K : Type} [Field K] [LinearOrder K] [IsStrictOrderedRing K]
+
+/-- faces of a position list given in a positively oriented frame are counter-clockwise about the normal when
+    their plane coordinates are convex and counter-clockwise -/
+theorem ccw_of_frame (c ρ u : P3 K) (L : List (P3 K)) (q : List Nat) (hdet : 0 < frameDet ρ u)
+    (hq : convexCCW (quadOf L q)) :
+    ccwAbout u ((L.map (frame c ρ u)).getD (q.getD 0 0) c) ((L.map (frame c ρ u)).getD (q.getD 1 0) c)
+      ((L.map (frame c ρ u)).getD (q.getD 2 0) c) ((L.map (frame c ρ u)).getD (q.getD 3 0) c) := by
+  obtain ⟨_, _, _, _, c1, c2, c3, c4⟩ := hq
+  simp only [quadOf] at c1 c2 c3 c4
+  simp only [getD_map_frame]
+  unfold ccwAbout
+  simp only [cross_frame_dot]
+  exact ⟨mul_pos hdet c1, mul_pos hdet c2, mul_pos hdet c3, mul_pos hdet c4⟩
+
+/-- **WrappedDisk**: for every centre, corner point, unit normal ⟂ centre→corner, `0 < radius < |corner − centre|`
+    (`wn` its witness; only `0 < radius < wn` is used) and `0 < diagonal_ratio < 1`: all nine quads of the
+    regenerated quad map are convex and counter-clockwise about the normal, and every block of
+    `ExtrudedShape(WrappedDisk, amount > 0)` has eight positive corner Jacobians -/
+theorem T_C11_wrapped_rightHanded (c corner u : P3 K) (h dg radius wn a : K)
+    (hu : nsq u = 1) (hp : dot u (sub corner c) = 0) (hr : 0 < nsq (sub corner c)) (ha : 0 < a)
+    (hd0 : 0 < dg) (hd1 : dg < 1) (hr0 : 0 < radius) (hr1 : radius < wn) :
+    (∀ q ∈ sketchQuads "WrappedDisk",
+      ccwAbout u ((wrappedPts c corner u h dg radius wn).getD (q.getD 0 0) c)
+        ((wrappedPts c corner u h dg radius wn).getD (q.getD 1 0) c)
+        ((wrappedPts c corner u h dg radius wn).getD (q.getD 2 0) c)
+        ((wrappedPts c corner u h dg radius wn).getD (q.getD 3 0) c)) ∧
+    ∀ H ∈ wrappedExtrudedHexes (sketchQuads "WrappedDisk") c corner u h dg radius wn a, H.RH := by
+  have hw : 0 < wn := lt_trans hr0 hr1
+  have hconv := wrapped_convex h dg (radius / wn) hd0 hd1 (div_pos hr0 hw) ((div_lt_one hw).mpr hr1)
+  have hdet := frameDet_pos (sub corner c) u hu hp hr
+  constructor
+  · intro q hq
+    rw [wrappedPts_frame c corner u h dg radius wn hp]
+    exact ccw_of_frame c _ u _ q hdet (hconv q hq)
+  · unfold wrappedExtrudedHexes
+    rw [wrappedPts_frame c corner u h dg radius wn hp, extrudeOf_frame]
+    exact loft_RH c _ u _ _ a _ hdet ha hconv hconv
+
+/-- **Oval**: for all centres `c1 ≠ c2`, unit normal ⟂ `c2 − c1`, `radius > 0` (`wd > 0` any witness of
+    `|normal × (c2 − c1)|`) and ratios satisfying the half-disk conditions: all sixteen quads of the regenerated quad
+    map are convex and counter-clockwise about the normal, and every block of `ExtrudedShape(Oval, amount > 0)` has
+    eight positive corner Jacobians -/
+theorem T_C11_oval_rightHanded (c1 c2 u : P3 K) (h k dg radius wd a : K)
+    (hu : nsq u = 1) (hp : dot u (sub c2 c1) = 0) (hd : 0 < nsq (sub c2 c1)) (hr : 0 < radius) (hw : 0 < wd)
+    (ha : 0 < a) (hok : DiskOK .half h k dg) :
+    (∀ q ∈ sketchQuads "Oval",
+      ccwAbout u ((ovalPts c1 c2 u h k dg radius wd).getD (q.getD 0 0) c1)
+        ((ovalPts c1 c2 u h k dg radius wd).getD (q.getD 1 0) c1)
+        ((ovalPts c1 c2 u h k dg radius wd).getD (q.getD 2 0) c1)
+        ((ovalPts c1 c2 u h k dg radius wd).getD (q.getD 3 0) c1)) ∧
+    ∀ H ∈ ovalExtrudedHexes (sketchQuads "Oval") c1 c2 u h k dg radius wd a, H.RH := by
+  have hconv := oval_convex h k dg (wd / radius) hok.1 hok.2.1 hok.2.2.1 hok.2.2.2.1 hok.2.2.2.2 (div_pos hw hr)
+  have hα : 0 < radius / wd := div_pos hr hw
+  have hρ : 0 < nsq (smul (radius / wd) (cross u (sub c2 c1))) := by
+    have key : nsq (smul (radius / wd) (cross u (sub c2 c1)))
+        = (radius / wd) * (radius / wd) * (nsq u * nsq (sub c2 c1) - dot u (sub c2 c1) * dot u (sub c2 c1)) := by
+      simp only [nsq, dot, smul, cross]; ring
+    rw [key, hu, hp]
+    have := mul_pos (mul_pos hα hα) hd
+    linarith
+  have hdet := frameDet_pos _ u hu (dot_cross_self (radius / wd) u (sub c2 c1)) hρ
+  constructor
+  · intro q hq
+    rw [ovalPts_frame c1 c2 u h k dg radius wd hr hw hu hp]
+    exact ccw_of_frame c1 _ u _ q hdet (hconv q hq)
+  · unfold ovalExtrudedHexes
+    rw [ovalPts_frame c1 c2 u h k dg radius wd hr hw hu hp, extrudeOf_frame]
+    exact loft_RH c1 _ u _ _ a _ hdet ha hconv hconv
+
+/-- **Grid**: every block of `ExtrudedShape(Grid(p1, p2, n, m), amount)` with `p1 < p2` in both coordinates and
+    `amount > 0` has eight positive corner Jacobians, for all counts `n`, `m` -/
+theorem T_C11_grid_rightHanded (x1 y1 x2 y2 a : K) (n m : Nat) (hx : x1 < x2) (hy : y1 < y2) (ha : 0 < a) :
+    ∀ H ∈ gridHexes x1 y1 x2 y2 n m a, H.RH := by
+  intro H hH
+  simp only [gridHexes, List.mem_flatMap, List.mem_map, List.mem_range] at hH
+  obtain ⟨iy, hiy, ix, hix, rfl⟩ := hH
+  exact gridHex_RH x1 y1 x2 y2 a n m ix iy hx hy (by omega) (by omega) ha
+
+end PartH
+
+/-- non-vacuity: a wrapped disk (corner at distance 5, circle of radius 2), an oval and a 3 × 2 grid over `Rat` -/
+example : ∀ H ∈ wrappedExtrudedHexes (sketchQuads "WrappedDisk") (⟨1, 2, 3⟩ : P3 Rat) ⟨4, 6, 3⟩ ⟨0, 0, 1⟩
+    (7 / 10) (9 / 10) 2 5 (3 / 2), H.RH :=
+  (T_C11_wrapped_rightHanded _ _ _ _ _ _ _ _ (by norm_num [P3.nsq, P3.dot]) (by norm_num [P3.dot, P3.sub])
+    (by norm_num [P3.nsq, P3.dot, P3.sub]) (by norm_num) (by norm_num) (by norm_num) (by norm_num) (by norm_num)).2
+
+example : ∀ H ∈ ovalExtrudedHexes (sketchQuads "Oval") (⟨1, 2, 3⟩ : P3 Rat) ⟨4, 6, 3⟩ ⟨0, 0, 1⟩
+    (7 / 10) (4 / 5) (9 / 10) 2 5 (3 / 2), H.RH :=
+  (T_C11_oval_rightHanded _ _ _ _ _ _ _ _ _ (by norm_num [P3.nsq, P3.dot]) (by norm_num [P3.dot, P3.sub])
+    (by norm_num [P3.nsq, P3.dot, P3.sub]) (by norm_num) (by norm_num) (by norm_num) (by unfold DiskOK; norm_num)).2
+
+example : ∀ H ∈ gridHexes (0 : Rat) (-1) 2 3 3 2 (1 / 2), H.RH :=
+  T_C11_grid_rightHanded _ _ _ _ _ _ _ (by norm_num) (by norm_num) (by norm_num)
+
+/-- over ℝ the conditions of Part H hold for the constants of the source (`T_C11_disk_constants`): the oval needs
+    `DiskOK .half`, the wrapped disk `0 < diagonal_ratio < 1` = `DiskOK .oneCore` -/
+theorem T_C11_wrapped_oval_constants :
+    (0 < diagRatioR ∧ diagRatioR < 1) ∧ DiskOK DiskCls.half (Real.sqrt 2 / 2) coreRatioR diagRatioR :=
+  ⟨T_C11_disk_constants .oneCore, T_C11_disk_constants .half⟩
 
 /-! ## Part G — joints: one construction for every branch count -/
 
